@@ -84,7 +84,7 @@ func main() {
 		}
 		scens = append(scens, s)
 	}
-	sizes := []int{0, 12, 33 << 10, 64 << 10, 1 << 20, 3 << 20}
+	sizes := []int{0, 12, 33 << 10, 64 << 10, 1 << 20, 2<<20 + 123457, 3 << 20}
 	// the source may carry a name a copy routine could pick for its own scratch file next to the destination
 	srcNames := []string{"src.bin", "dst.bin.tmp", "src.bin", "dst.bin~", ".dst.bin.tmp", "src.bin", "dst.bin.part", "dst.bin.bak", "dst.bin.swp"}
 	runs, skipped, crossfs := 0, 0, 0
